@@ -126,7 +126,9 @@ def _run_instance(args):
             out["replays"].append(rec)
         # --- encoder validation: symbolic terms evaluated at sample points == the real code on floats
         nval = 0
-        for k in range(inst.samples):
+        for k in range(inst.samples * 15):
+            if nval >= inst.samples:
+                break
             s1 = LazySample(seed, k)
             try:
                 sym = core.run_concolic(inst.fn, s1, raises=inst.raises)
